@@ -170,8 +170,15 @@ def run_one(ctx, src, scopes, config, keep, workdir, cli=False):
         p1 = os.path.join(workdir, ambient.BASE[0] + '.p8')
         with open(p1, 'wb') as fh:
             fh.write(rc.write_p8_variant(ctx.rng, regions, src, version=ambient.VERSION[0]))
-        argv = [ambient.vflag(), 'luamin'] + (['--keep-all-names'] if config.startswith('keep_all') else []) + (
-            ['--keep-names-from-file', keep_file] if 'keep_file' in config else [])
+        # (the options as a user may type them: in full, with `=`, or shortened to an unambiguous beginning, which p8tool accepts)
+        nth = ctx.monitors.get('cli_runs', 0)
+        kf = keep_file or ''
+        kf_opt = (['--keep-names-from-file', kf], ['--keep-names-from-file=' + kf], ['--keep-names', kf],
+                  ['--keep-names-from', kf], ['--keep-n=' + kf])[nth % 5]
+        ka_opt = ('--keep-all-names', '--keep-all', '--keep-a')[nth % 3]
+        if 'keep_file' in config:
+            ctx.feature('cli_keep_file_option_spelling:' + kf_opt[0].split('=')[0])
+        argv = [ambient.vflag(), 'luamin'] + ([ka_opt] if config.startswith('keep_all') else []) + (kf_opt if 'keep_file' in config else [])
         # several carts on one command line: every output must satisfy the property on its own
         prev_src = ctx.extra.get('_prev_cli_src')
         extra_paths = []
